@@ -355,6 +355,14 @@ func (ms *Modules) process() []error {
 	// has includes and imports of its own, and so has a module without
 	// revision that a dated one of its name hides from the maps.
 	mods = ms.loaded()
+	// In a fixed order: which module asks first decides what is fetched
+	// from disk for an import, and thereby what later imports find loaded.
+	sort.Slice(mods, func(i, j int) bool {
+		if mods[i].Kind() != mods[j].Kind() {
+			return mods[i].Kind() < mods[j].Kind()
+		}
+		return mods[i].FullName() < mods[j].FullName()
+	})
 	for _, m := range mods {
 		if err := ms.include(m); err != nil {
 			errs = append(errs, err)
